@@ -299,7 +299,7 @@ static bool run_transition(const Cli& cli, const History& hist, const Op& o, int
     env::Hash128 oh;
     oh.str(ctx.obs);
     std::string line = "T\t" + op_str(o) + "\t" + verdict + "\t" + canon + "\t" + oh.hex() + "\t" +
-                       std::to_string(ctx.fill_phase ? 1 : 0) + "\t" + std::to_string(foreign) + "\t" +
+                       std::to_string((ctx.fill_phase || ctx.free_step) ? 1 : 0) + "\t" + std::to_string(foreign) + "\t" +
                        std::to_string(fail_at) + "\t" + std::to_string(allocs_out) + "\n";
     line += viol_lines(rel);
     line += "E\n";
@@ -524,8 +524,8 @@ int main(int argc, char** argv)
                             if (!hist.empty() && node_canon[static_cast<size_t>(idx)] != "-" &&
                                 e->canon() != node_canon[static_cast<size_t>(idx)])
                             {
-                                write_all(fd, "X\t" + std::to_string(idx) + "\tcanon on replay differs from canon at discovery: " +
-                                                  history_str(hist) + "\n");
+                                write_all(fd, "X\t" + std::to_string(idx) + "\tcanon on replay (" + e->canon() + ") differs from canon at discovery (" +
+                                                  node_canon[static_cast<size_t>(idx)] + "): " + history_str(hist) + "\n");
                                 _exit(0);
                             }
                             const std::vector<Op> ops = hist.empty() ? e->initial_ops() : e->enabled();
